@@ -9,7 +9,7 @@ import ChibiVerif.Lemmas.PPLemmas
 namespace ChibiVerif.PP
 open ChibiVerif.Spec.PPSpec
 
-/-! ## `#`: `quote_string(join_tokens(arg))` is the string of 6.10.3.2 when no `\` or `"` occurs outside literals -/
+/-! ## `#`: the copy loops of `stringize` build the string of 6.10.3.2 — for every argument -/
 
 def escChars (cs : List Char) : List Char := cs.flatMap fun c => if c == '\\' || c == '"' then ['\\', c] else [c]
 
@@ -29,49 +29,61 @@ theorem escChars_id : ∀ (cs : List Char), (cs.any fun c => c == '\\' || c == '
     simp only [Bool.false_eq_true, if_false, List.singleton_append, List.cons.injEq, true_and]
     exact ih h.2
 
-theorem strPiece_toList {t : Tok} (h : strSafeTok t = true) : (strPiece t).toList = escChars t.text.toList := by
-  unfold strPiece
-  by_cases hk : (t.kind == .str || t.kind == .other) = true
-  · simp [hk, escapeLit, escChars, String.toList_ofList]
-  · have hk' : (t.kind == .str || t.kind == .other) = false := by simpa using hk
-    simp only [hk', Bool.false_eq_true, if_false]
-    unfold strSafeTok at h
-    simp only [Bool.or_eq_false_iff] at hk'
-    simp only [hk'.1, hk'.2, Bool.false_or, Bool.not_eq_true'] at h
-    exact (escChars_id _ h).symm
+/-- the inner loop of `stringize` on a literal token escapes every `\` and `"` … -/
+theorem strzCopy_true : ∀ (cs : List Char), strzCopy true cs = escChars cs := by
+  intro cs
+  induction cs with
+  | nil => rfl
+  | cons c r ih =>
+    have hcons : escChars (c :: r) = (if (c == '\\' || c == '"') = true then ['\\', c] else [c]) ++ escChars r := by
+      simp [escChars]
+    rw [hcons, strzCopy, ih]
+    cases hc : (c == '\\' || c == '"') <;> simp
 
-theorem foldl_join_stringize : ∀ (ts : List Tok) (accJ accS : String),
-    (∀ t ∈ ts, strSafeTok t = true) → accS.toList = escChars accJ.toList →
-    (ts.foldl (fun acc u => acc ++ (if spaced u then " " else "") ++ strPiece u) accS).toList =
-      escChars (ts.foldl (fun acc u => acc ++ (if u.hasSpace || u.atBol then " " else "") ++ u.text) accJ).toList := by
+/-- … and copies the spelling of any other token unchanged -/
+theorem strzCopy_false : ∀ (cs : List Char), strzCopy false cs = cs := by
+  intro cs
+  induction cs with
+  | nil => rfl
+  | cons c r ih => simp [strzCopy, ih]
+
+/-- one token: the model's inner loop writes the specification's `strPiece` -/
+theorem strzCopy_piece (t : Tok) : strzCopy (t.kind == .str || t.kind == .other) t.text.toList = (strPiece t).toList := by
+  unfold strPiece
+  cases hk : (t.kind == .str || t.kind == .other)
+  · simp [strzCopy_false]
+  · simp [strzCopy_true, escapeLit, escChars, String.toList_ofList]
+
+/-- the outer loop after the first token: the specification's left fold, started from any accumulator -/
+theorem foldl_strzLoop : ∀ (ts : List Tok) (acc : String),
+    (ts.foldl (fun acc u => acc ++ (if spaced u then " " else "") ++ strPiece u) acc).toList =
+      acc.toList ++ strzLoop false ts := by
   intro ts
   induction ts with
-  | nil => intro accJ accS _ h; simpa using h
+  | nil => intro acc; simp [strzLoop]
   | cons u r ih =>
-    intro accJ accS hs h
+    intro acc
     simp only [List.foldl_cons]
-    apply ih _ _ (fun t ht => hs t (by simp [ht]))
-    simp only [String.toList_append, escChars_append, h, strPiece_toList (hs u (by simp)), spaced]
-    congr 2
-    by_cases hsp : (u.hasSpace || u.atBol) = true
-    · simp [hsp, escChars]
-    · simp [hsp, escChars]
+    rw [ih, strzLoop, strzCopy_piece]
+    cases hsp : (u.hasSpace || u.atBol) <;> simp [spaced, hsp, String.toList_append]
 
-/-- the model's `stringize` is the specification's, for arguments inside `StringizeLiteralSafe` -/
-theorem stringize_eq_spec (hash : Tok) (arg : List Tok) (h : ∀ t ∈ arg, strSafeTok t = true) :
+/-- the characters between the quotes -/
+theorem strzLoop_eq_spec (arg : List Tok) : strzLoop true arg = (stringizeText arg).toList := by
+  cases arg with
+  | nil => simp [strzLoop, stringizeText]
+  | cons t ts =>
+    simp only [stringizeText]
+    rw [foldl_strzLoop, strzLoop, strzCopy_piece]
+    simp
+
+/-- the model's `stringize` is the specification's — for **every** argument (since `fix:` 6fecbd6) -/
+theorem stringize_eq_spec (hash : Tok) (arg : List Tok) :
     (stringize hash arg).text = (stringizeSpec hash arg).text ∧ (stringize hash arg).kind = (stringizeSpec hash arg).kind := by
   refine ⟨?_, rfl⟩
-  simp only [stringize, stringizeSpec, quoteString]
-  have key : (stringizeText arg).toList = escChars (joinTokens arg).toList := by
-    cases arg with
-    | nil => simp [stringizeText, joinTokens, escChars]
-    | cons t ts =>
-      simp only [stringizeText, joinTokens]
-      exact foldl_join_stringize ts t.text (strPiece t) (fun u hu => h u (by simp [hu]))
-        (strPiece_toList (h t (by simp)))
+  simp only [stringize, stringizeSpec]
   rw [← String.ofList_toList (s := "\"" ++ stringizeText arg ++ "\"")]
   congr 1
-  simp only [String.toList_append, key, escChars]
+  simp only [String.toList_append, strzLoop_eq_spec]
   rfl
 
 /-! ## `subst` with a pure pre-expander: the cache `arg->expanded` only ever holds `full toks` -/
@@ -637,7 +649,6 @@ theorem subst_sim (lx : String → LexOne) (full : List Tok → List Tok) (isObj
       body.length < fuel → body.length < pf →
       args.map core = args0.map core → CacheOK full args →
       anyBad (!isObj) args0 body = false → hasPlacemarkerChain args0 body = false →
-      hasUnsafeStringize args0 body = false →
       (PmTop done = true → textIs body.head? "##" = false) →
       spell acc = spell (dropPlacemarkers done) →
       parseBody (!isObj) args0 pf body = .ok items →
@@ -649,7 +660,7 @@ theorem subst_sim (lx : String → LexOne) (full : List Tok → List Tok) (isObj
   induction fuel with
   | zero => intro st args body acc done pf items elems es h; omega
   | succ n ih =>
-    intro st args body acc done pf items elems es hfuel hpf hcore hcache hbad hchain hunsafe hpm hR hparse hsub hpaste
+    intro st args body acc done pf items elems es hfuel hpf hcore hcache hbad hchain hpm hR hparse hsub hpaste
     cases body with
     | nil =>
       cases pf with
@@ -667,7 +678,6 @@ theorem subst_sim (lx : String → LexOne) (full : List Tok → List Tok) (isObj
       obtain ⟨pf', rfl⟩ : ∃ k, pf = k + 1 := ⟨pf - 1, by simp only [List.length_cons] at hpf; omega⟩
       obtain ⟨hbh, hbt⟩ := anyBad_tail hbad
       have hct := chain_tail hchain
-      have hut := unsafe_tail hunsafe
       simp only [List.length_cons] at hfuel hpf
       rcases parse_step hbh hparse with
         ⟨h1, hfn, p, rest', items', rfl, hip, rfl, hp'⟩ | ⟨h1, h2, items', rfl, hp'⟩ |
@@ -679,12 +689,7 @@ theorem subst_sim (lx : String → LexOne) (full : List Tok → List Tok) (isObj
         have hsome : (findArg args0 (some p)).isSome = true := by rw [← isParam_iff]; exact hip
         obtain ⟨a0, ha0⟩ := Option.isSome_iff_exists.1 hsome
         obtain ⟨a, ha, _, _, htoks⟩ := findArg_of_core_symm hcore ha0
-        have hsafe : ∀ t ∈ a0.toks, strSafeTok t = true := by
-          simp only [hasUnsafeStringize, Bool.or_eq_false_iff] at hunsafe
-          have := hunsafe.1
-          simp only [h1, beq_self_eq_true, Bool.true_and, ha0, Bool.not_eq_false'] at this
-          exact List.all_eq_true.1 this
-        obtain ⟨hst, hsk⟩ := stringize_eq_spec tok a0.toks hsafe
+        obtain ⟨hst, hsk⟩ := stringize_eq_spec tok a0.toks
         have hpaste' : pasteAll lx e2 (.tok (stringizeSpec tok (argToks args0 p.text)) :: done) = .ok es := by
           simpa [pasteAll] using hpaste
         have hobj : isObj = false := by simpa using hfn
@@ -692,7 +697,7 @@ theorem subst_sim (lx : String → LexOne) (full : List Tok → List Tok) (isObj
         obtain ⟨out, args', st', hm, hs⟩ := ih st args rest' (stringize tok a.toks :: acc)
           (.tok (stringizeSpec tok (argToks args0 p.text)) :: done) pf' items' e2 es
           (by simp only [List.length_cons] at hfuel; omega) (by simp only [List.length_cons] at hpf; omega)
-          hcore hcache hbt2 (chain_tail hct) (unsafe_tail hut) (by simp [PmTop])
+          hcore hcache hbt2 (chain_tail hct) (by simp [PmTop])
           (by rw [spell_cons, dropPM_cons_tok, spell_cons, hR, argToks_of_findArg ha0, htoks]
               simp [spell1, hst, hsk]) hp' hsub' hpaste'
         refine ⟨out, args', st', ?_, hs⟩
@@ -793,7 +798,7 @@ theorem subst_sim (lx : String → LexOne) (full : List Tok → List Tok) (isObj
                   simpa [rawOrPlacemarker, pasteAll, combine] using hpaste
                 obtain ⟨out, args', st', hm, hs⟩ := ih st args rest' (cur :: acc') (Elem.tok lt :: done') k items3 e3 es
                   (by simp only [List.length_cons] at hfuel; omega) (by simp only [List.length_cons] at hpf; omega)
-                  hcore hcache hbt2 (chain_tail hct) (unsafe_tail hut) (by simp [PmTop])
+                  hcore hcache hbt2 (chain_tail hct) (by simp [PmTop])
                   (by rw [spell_cons, dropPM_cons_tok, spell_cons, hlt, hR']) hp3 hsub3 hpaste2
                 exact ⟨out, args', st', hmodel out args' st' (by rw [ha2]; simp only [ha2e]; exact hm), hs⟩
               | cons w0 ws =>
@@ -818,7 +823,7 @@ theorem subst_sim (lx : String → LexOne) (full : List Tok → List Tok) (isObj
                   obtain ⟨out, args', st', hm, hs⟩ := ih st args rest' (ts.reverse ++ p' :: acc')
                     ((ws.map Elem.tok).reverse ++ Elem.tok x :: done') k items3 e3 es
                     (by simp only [List.length_cons] at hfuel; omega) (by simp only [List.length_cons] at hpf; omega)
-                    hcore hcache hbt2 (chain_tail hct) (unsafe_tail hut)
+                    hcore hcache hbt2 (chain_tail hct)
                     (by rw [pmTop_push_tok]; intro h; cases h)
                     (by rw [spell_append, spell_reverse, spell_cons, dropPM_push, dropPM_cons_tok, spell_append,
                           spell_reverse, spell_cons, hsp.2, hp'sp, hR']) hp3 hsub3 hpaste
@@ -834,7 +839,7 @@ theorem subst_sim (lx : String → LexOne) (full : List Tok → List Tok) (isObj
                 obtain ⟨p', hp'ok, hp'sp⟩ := paste_congr2 lx hlt rfl x hcomb
                 obtain ⟨out, args', st', hm, hs⟩ := ih st args rest' (p' :: acc') (Elem.tok x :: done') k items3 e3 es
                   (by simp only [List.length_cons] at hfuel; omega) (by simp only [List.length_cons] at hpf; omega)
-                  hcore hcache hbt2 (chain_tail hct) (unsafe_tail hut) (by simp [PmTop])
+                  hcore hcache hbt2 (chain_tail hct) (by simp [PmTop])
                   (by rw [spell_cons, dropPM_cons_tok, spell_cons, hp'sp, hR']) hp3 hsub3 hpaste
                 exact ⟨out, args', st', hmodel out args' st' (by rw [hnone']; simp only [hp'ok]; exact hm), hs⟩
       · -- parameter
@@ -882,7 +887,7 @@ theorem subst_sim (lx : String → LexOne) (full : List Tok → List Tok) (isObj
             obtain ⟨out, args', st', hm, hs⟩ := ih st args rest
               ((setHeadFlags a.toks tok.atBol tok.hasSpace).reverse ++ acc)
               (((withSpacingOf tok a0.toks).map Elem.tok).reverse ++ done) pf' items' e2 es
-              (by omega) (by omega) hcore hcache hbt hct hut (by rw [hpmf]; intro h; cases h)
+              (by omega) (by omega) hcore hcache hbt hct (by rw [hpmf]; intro h; cases h)
               (by rw [spell_append, spell_reverse, spell_setHeadFlags, dropPM_push, spell_append, spell_reverse,
                     spell_withSpacingOf, hR, htoks]) hp' hsub' hpaste
             refine ⟨out, args', st', ?_, hs⟩
@@ -955,7 +960,7 @@ theorem subst_sim (lx : String → LexOne) (full : List Tok → List Tok) (isObj
                   obtain ⟨out, args', st', hm, hs⟩ := ih st args rest3 (a2.toks.reverse ++ acc)
                     ((rawOrPlacemarker W).reverse ++ done) k' items3 e3 es
                     (by simp only [List.length_cons] at hfuel; omega) (by simp only [List.length_cons] at hpf; omega)
-                    hcore hcache hbt3 (chain_tail (chain_tail hct)) (unsafe_tail (unsafe_tail hut))
+                    hcore hcache hbt3 (chain_tail (chain_tail hct))
                     (by
                       intro hpt
                       have hWe := pmTop_raw W done hpt
@@ -977,7 +982,7 @@ theorem subst_sim (lx : String → LexOne) (full : List Tok → List Tok) (isObj
                     simpa [pasteAll, combine] using hpaste1
                   obtain ⟨out, args', st', hm, hs⟩ := ih st args rest3 (rhs :: acc) (Elem.tok rhs :: done) k' items3 e3 es
                     (by simp only [List.length_cons] at hfuel; omega) (by simp only [List.length_cons] at hpf; omega)
-                    hcore hcache hbt3 (chain_tail (chain_tail hct)) (unsafe_tail (unsafe_tail hut))
+                    hcore hcache hbt3 (chain_tail (chain_tail hct))
                     (by simp [PmTop]) (by rw [spell_cons, dropPM_cons_tok, spell_cons, hR]) hp3 hsub3 hpaste2
                   exact ⟨out, args', st', hmodel acc out args' st' (by rw [hnone']; exact hm), hs⟩
         · -- plain parameter: the completely macro-replaced argument
@@ -996,7 +1001,7 @@ theorem subst_sim (lx : String → LexOne) (full : List Tok → List Tok) (isObj
               ((setHeadFlags (full a.toks) tok.atBol tok.hasSpace).reverse ++ acc)
               (((withSpacingOf tok (full a0.toks)).map Elem.tok).reverse ++ done) pf' items' e2 es
               (by omega) (by omega) (by rw [setExpanded_core]; exact hcore) (cacheOK_setExpanded hcache ha)
-              hbt hct hut (fun _ => hnx') hR' hp' hsub' hpaste
+              hbt hct (fun _ => hnx') hR' hp' hsub' hpaste
             refine ⟨out, args', st', ?_, hs⟩
             unfold substLoop
             simp only [hh, Bool.false_eq_true, if_false]
@@ -1006,7 +1011,7 @@ theorem subst_sim (lx : String → LexOne) (full : List Tok → List Tok) (isObj
           · obtain ⟨out, args', st', hm, hs⟩ := ih st args rest
               ((setHeadFlags (full a.toks) tok.atBol tok.hasSpace).reverse ++ acc)
               (((withSpacingOf tok (full a0.toks)).map Elem.tok).reverse ++ done) pf' items' e2 es
-              (by omega) (by omega) hcore hcache hbt hct hut (fun _ => hnx') hR' hp' hsub' hpaste
+              (by omega) (by omega) hcore hcache hbt hct (fun _ => hnx') hR' hp' hsub' hpaste
             refine ⟨out, args', st', ?_, hs⟩
             unfold substLoop
             simp only [hh, Bool.false_eq_true, if_false]
@@ -1033,7 +1038,7 @@ theorem subst_sim (lx : String → LexOne) (full : List Tok → List Tok) (isObj
           | true => simp only [Bool.and_eq_true, beq_iff_eq] at hc; exact absurd ⟨hc.1, by simpa using hc.2⟩ h1
         have h2' : (tok.text == "##") = false := by simpa using h2
         obtain ⟨out, args', st', hm, hs⟩ := ih st args rest (tok :: acc) (.tok tok :: done) pf' items' e2 es
-          (by omega) (by omega) hcore hcache hbt hct hut (by simp [PmTop])
+          (by omega) (by omega) hcore hcache hbt hct (by simp [PmTop])
           (by rw [spell_cons, dropPM_cons_tok, spell_cons, hR]) hp' hsub' hpaste'
         refine ⟨out, args', st', ?_, hs⟩
         unfold substLoop
@@ -1061,7 +1066,7 @@ instance (body : List Tok) (args : List MacroArg) : Decidable (NoExtension body 
 /-- `subst` (function-like macro, pure pre-expander) produces the spellings of `Spec.subst` whenever the
     specification defines them, inside the region -/
 theorem subst_spec_of_region (lx : String → LexOne) (full : List Tok → List Tok) (body : List Tok) (args : List MacroArg)
-    (s : List Tok) (hpm : NoPlacemarkerChain body args) (hbs : StringizeLiteralSafe body args)
+    (s : List Tok) (hpm : NoPlacemarkerChain body args)
     (hext : NoExtension body args) (hfresh : FreshArgs args)
     (hspec : ChibiVerif.Spec.PPSpec.subst lx full true body args = .ok s) :
     ∃ m st', subst lx (purePP full) {} body args false = .ok (m, st') ∧ spell m = spell s := by
@@ -1082,7 +1087,7 @@ theorem subst_spec_of_region (lx : String → LexOne) (full : List Tok → List 
           subst hspec
           obtain ⟨out, args', st', hm, hs⟩ := subst_sim lx full false args _ _ (body.length + 1) {} args body [] []
             (body.length + 1) items elems es (by omega) (by omega) rfl
-            (fun a ha => Or.inl (hfresh a ha)) hext hpm hbs (by simp [PmTop]) (by simp [spell, dropPlacemarkers])
+            (fun a ha => Or.inl (hfresh a ha)) hext hpm (by simp [PmTop]) (by simp [spell, dropPlacemarkers])
             hparse hsub hpaste
           refine ⟨out, st', ?_, hs⟩
           simp [subst, hm, Except.map]
